@@ -254,3 +254,119 @@ OBLIGATIONS += [
     Ob('foreign_keyerror_propagates', ob_foreign_keyerror, [], timeout=60, data='-', selectors='KeyError(other name) from a condition'),
 ]
 ASSUMES = ['namespace stubs never raise KeyError(<name being looked up>): render_blocks_ reads that as "undefined" by design']
+
+
+# ---------------------------------------------------------------- wave 3
+class Seq:
+    """callable whose successive calls return successive truth values (an expression with a side effect, e.g. jobs.pop())"""
+
+    def __init__(self, vals):
+        self.vals, self.n = vals, 0
+
+    def __call__(self):
+        v = self.vals[self.n] if self.n < len(self.vals) else False
+        self.n += 1
+        return v
+
+
+T_SAME_EXPR = cooked('<dtml-if "f()">A<dtml-elif "f()">B<dtml-elif "f()">C<dtml-else>D</dtml-if>|<dtml-if expr="g()">a<dtml-elif expr="g()">b</dtml-if>')
+T_SAME_EXPR_S = cooked('%(if "f()")[A%(elif "f()")[B%(elif "f()")[C%(else)[D%(if)]', String)
+T_EXPR_THEN_NAME = cooked('<dtml-if "count">A<dtml-elif count>B<dtml-else>C</dtml-if>|<dtml-if count>A<dtml-elif "count">B<dtml-else>C</dtml-if>')
+
+
+class FalseButCallable:
+    """an object that is false as a value but whose call result has a symbolic truth value"""
+
+    def __init__(self, r):
+        self.r, self.n = r, 0
+
+    def __bool__(self):
+        return False
+
+    def __call__(self):
+        self.n += 1
+        return self.r
+
+
+def ob_same_expression_text(t1: bool, t2: bool, t3: bool, u1: bool, u2: bool, epfs: bool) -> bool:
+    """every elif condition is evaluated in its turn even if its TEXT equals an earlier condition's: expressions are not cached"""
+    f, g = Seq([t1, t2, t3]), Seq([u1, u2])
+    if epfs:
+        out = T_SAME_EXPR_S(f=f)
+        exp2 = ''
+    else:
+        out = T_SAME_EXPR(f=f, g=g)
+        exp2 = '|' + ('a' if u1 else 'b' if u2 else '')
+        if g.n != (1 if u1 else 2):
+            return False
+    exp = 'A' if t1 else 'B' if t2 else 'C' if t3 else 'D'
+    return out == exp + exp2 and f.n == (1 if t1 else 2 if t2 else 3)
+
+
+def ob_expr_then_name(r: bool) -> bool:
+    """an expression condition "count" (the object itself, uncalled: false) followed by the NAME count (called): different
+    conditions although spelled alike"""
+    c = FalseButCallable(r)
+    out = T_EXPR_THEN_NAME(count=c)
+    # first chain: "count" is false (uncalled), elif count calls it; second chain: name first (called, cached), then the
+    # expression sees the cached value of the name
+    return out == ('B' if r else 'C') + '|' + ('A' if r else 'C') and c.n == 2
+
+
+T_LEAK = {
+    'body_raises': cooked('<dtml-try><dtml-if a>x<dtml-var boom></dtml-if><dtml-except>H</dtml-try>|<dtml-if a>Y<dtml-else>N</dtml-if>|<dtml-var a>'),
+    'cond_raises': cooked('<dtml-try><dtml-if a>x<dtml-elif boom>y</dtml-if><dtml-except>H</dtml-try>|<dtml-if a>Y<dtml-else>N</dtml-if>|<dtml-var a>'),
+    'unless_raises': cooked('<dtml-try><dtml-unless a>x<dtml-var boom></dtml-unless><dtml-except>H</dtml-try>|<dtml-if a>Y<dtml-else>N</dtml-if>|<dtml-var a>'),
+    'let_around': cooked('<dtml-try><dtml-let q=one><dtml-if a>x<dtml-var boom></dtml-if></dtml-let><dtml-except>H</dtml-try>|<dtml-if q>Q<dtml-else>noq</dtml-if>|<dtml-if a>Y<dtml-else>N</dtml-if>'),
+}
+T_LEAK_SUB = HTML('<dtml-if a>s<dtml-return one></dtml-if>t')
+T_LEAK_SUB.cook()
+T_LEAK_CALLER = cooked('<dtml-var sub>|<dtml-if a>Y<dtml-else>N</dtml-if>|<dtml-var a>')
+
+
+class Flip:
+    """truth value v1 at the first call, v2 afterwards; counts calls"""
+
+    def __init__(self, v1, v2):
+        self.v1, self.v2, self.n = v1, v2, 0
+
+    def __call__(self):
+        self.n += 1
+        return ('T' if self.v1 else '') if self.n == 1 else ('T2' if self.v2 else '')
+
+
+def boom():
+    raise ValueError('boom')
+
+
+def make_leak(key):
+    def ob(v1: bool, v2: bool) -> bool:
+        """the value cached for a conditional dies with that conditional - also when an exception (or dtml-return in a
+        sub-template) leaves it: a later conditional on the same name evaluates it again"""
+        a = Flip(v1, v2)
+        if key == 'sub':
+            out = T_LEAK_CALLER(a=a, sub=T_LEAK_SUB, one=1)
+            first = '1' if v1 else 't'
+            return out == first + '|' + ('Y' if v2 else 'N') + '|' + ('T2' if v2 else '') and a.n == 3
+        out = T_LEAK[key](a=a, boom=boom, one=1)
+        if key == 'let_around':
+            first = 'H' if v1 else ''
+            return out == first + '|noq|' + ('Y' if v2 else 'N') and a.n == 2
+        if key == 'unless_raises':
+            first = '' if v1 else 'H'
+        elif key == 'cond_raises':
+            first = 'x' if v1 else 'H'
+        else:
+            first = 'H' if v1 else ''
+        return out == first + '|' + ('Y' if v2 else 'N') + '|' + ('T2' if v2 else '') and a.n == 3
+    ob.__name__ = 'ob_cache_dies_' + key
+    return ob
+
+
+OBLIGATIONS.append(Ob('same_expression_text', ob_same_expression_text, [], timeout=100, data='truth values of three successive evaluations of f(), two of g(); syntax bit',
+                      selectors='if/elif chains whose expression conditions have identical text (side-effecting expression)', stubs='relib-escape'))
+OBLIGATIONS.append(Ob('expression_then_name', ob_expr_then_name, [], timeout=100, data='truth value of the call result',
+                      selectors='"count" (expression) and count (name) in one chain, value false as an object but callable'))
+for _k in list(T_LEAK) + ['sub']:
+    OBLIGATIONS.append(Ob('cache_dies_' + _k, make_leak(_k), [], timeout=100, data='truth value at the first and at later evaluations of the named condition',
+                          selectors='conditional left by an exception (caught by a surrounding dtml-try) / by dtml-return in a sub-template; the same name tested again afterwards'))
